@@ -1,4 +1,5 @@
 import CkcVerif.Props.C02
+import CkcVerif.Props.C01
 import CkcVerif.Lemmas.SubHands
 /-!
 # C09 — more cards never weaken a hand: seven ≤ every six-subset ≤ every five-subset
@@ -53,9 +54,28 @@ theorem C09_strength_chain {cs g f : List Card} (h : IsHand 7 cs) (hg : g ∈ co
   refine ⟨hs6 f hf, ?_⟩
   exact hs7 b6 (combos_sub 5 g cs b6 ((mem_combos 6 cs g).mp hg).1 hb6)
 
+/-- the same chain with the values made explicit (no defaulting): all three rankings return, and
+    seven ≤ six ≤ five -/
+theorem C09_chain_values {cs g f : List Card} (h : IsHand 7 cs) (hg : g ∈ combos 6 cs) (hf : f ∈ combos 5 g) :
+    ∃ v7 v6 v5, handRankValue packed (words cs) = some v7 ∧ handRankValue packed (words g) = some v6 ∧
+      handRankValue packed (words f) = some v5 ∧ 1 ≤ v7 ∧ v7 ≤ v6 ∧ v6 ≤ v5 ∧ v5 ≤ 7462 := by
+  have hg6 := sub_hand h hg
+  have hf5 := sub_hand hg6 hf
+  obtain ⟨v7, _, _, a7, _, e7, _⟩ := C02.C02_best_of (Or.inr rfl) h
+  obtain ⟨v6, _, _, _, _, e6, _⟩ := C02.C02_best_of (Or.inl rfl) hg6
+  obtain ⟨v5, _, b5, _, _, e5, _⟩ := C01.C01_entry_points hf5
+  obtain ⟨c1, c2⟩ := C09_chain h hg hf
+  have d7 : valueD cs = v7 := by unfold valueD; rw [e7]; rfl
+  have d6 : valueD g = v6 := by unfold valueD; rw [e6]; rfl
+  have d5 : valueD f = v5 := by unfold valueD; rw [e5]; rfl
+  rw [d7, d6] at c1
+  rw [d6, d5] at c2
+  exact ⟨v7, v6, v5, e7, e6, e5, a7, c1, c2, b5⟩
+
 end C09
 
 #print axioms C09.C09_six_vs_five
 #print axioms C09.C09_seven_vs_six
 #print axioms C09.C09_chain
 #print axioms C09.C09_strength_chain
+#print axioms C09.C09_chain_values
